@@ -72,18 +72,34 @@ theorem close_classified (c : Cfg) (st st' : State) (b : Back) (bs : List Back)
     simp only [Option.some.injEq] at hs; rw [← hs]
     cases hcl : st.s.closed <;> simp [hcl]
 
-/-- once closed, no operation obtains credits any more … -/
-theorem closed_blocks_requests (c : Cfg) (st : State) (g : Bool) (h : st.s.closed = some g) :
-    step c st .request = none := by
+/-- once closed, no operation obtains credits any more — unless the sender runs with
+`override_graceful_close` (`c.ovr`, set by `chmux::forward`) and the close was graceful … -/
+theorem closed_blocks_requests (c : Cfg) (st : State) (g : Bool) (h : st.s.closed = some g)
+    (hov : c.ovr = false ∨ g = false) : step c st .request = none := by
   simp only [step]
   split
   · rfl
-  · simp [Sender.open, h]
+  · rcases hov with hov | hov <;> simp [Sender.mayRequest, Sender.open, h, hov]
 
 /-- … and an operation that needs credits fails instead of waiting -/
 theorem closed_enables_fail (c : Cfg) (st : State) (g : Bool) (x : Xfer) (h : st.s.closed = some g)
+    (hov : c.ovr = false ∨ g = false)
     (hcur : st.s.cur = some x) (hheld : st.s.held = 0) : (step c st .fail).isSome = true := by
-  simp [step, hcur, hheld, Sender.open, h]
+  rcases hov with hov | hov <;> simp [step, hcur, hheld, Sender.mayRequest, Sender.open, h, hov]
+
+/-- **Graceful-close override** (`Sender::set_override_graceful_close`, used by `chmux::forward`): a sender
+with the override keeps obtaining credits after a *graceful* close (`ReceiveClose`) and its operations do
+not fail; only a non-graceful close (`ReceiveFinish`: receiver dropped) stops it. -/
+theorem override_keeps_sending (c : Cfg) (st : State) (x : Xfer) (hov : c.ovr = true)
+    (h : st.s.closed = some true) (hcur : st.s.cur = some x) :
+    step c st .fail = none ∧
+    (st.s.held = 0 → x.want.2 ≤ st.s.pool → (step c st .request).isSome = true) := by
+  constructor
+  · simp [step, hcur, Sender.mayRequest, Sender.open, h, hov]
+  · intro hh hp
+    simp only [step, hcur]
+    rw [if_pos ⟨hh, by simp [Sender.mayRequest, h, hov], hp⟩]
+    rfl
 
 /-- messages whose transmission completed before the sender learned of the close are not affected:
 `provide` of a close notification changes neither what was emitted nor what was completed -/
